@@ -69,6 +69,7 @@ type Contract struct {
 	BodyOnly bool // the body is checked against the contract, but call sites ignore it (the callee keeps its noeffect.txt class): for safety-only contracts on widely used helpers
 	TrustFrame bool // the modifies clause is assumed for the body (e.g. writes through an interface-typed destination)
 	Cases    []string
+	OnlyHere []string // "onlyhere x.y.M": in this package, calls whose callee expression ends with x.y.M occur only in functions carrying this clause
 	NoWrite  []string // "nowrite T.f": the body contains no direct assignment to field f of struct type T (composite literals excepted)
 	Notes    []string
 	Used     bool
@@ -112,7 +113,7 @@ type Lemma struct {
 var clauseKeywords = map[string]bool{
 	"func": true, "props": true, "safety": true, "requires": true, "ensures": true,
 	"modifies": true, "loop": true, "trusted": true, "pure": true, "opaque": true, "ghost": true,
-	"global": true, "lemma": true, "assumes": true, "import": true, "note": true, "cases": true, "end": true, "trustframe": true, "ensures-local": true, "defines": true, "precall": true, "closure": true, "iface": true, "init": true, "nowrite": true, "assume-pre": true, "stable": true, "bodyonly": true, "ensures-trusted": true,
+	"global": true, "lemma": true, "assumes": true, "import": true, "note": true, "cases": true, "end": true, "trustframe": true, "ensures-local": true, "defines": true, "precall": true, "closure": true, "iface": true, "init": true, "nowrite": true, "onlyhere": true, "assume-pre": true, "stable": true, "bodyonly": true, "ensures-trusted": true,
 }
 
 var funcKeyRe = regexp.MustCompile(`^(?:\(\s*\*?\s*(\w+)\s*\)\s*\.\s*(\w+)|(\w+)\s*\.\s*(\w+)|(\w+))`)
@@ -317,6 +318,8 @@ func parseSpecFile(path, relDir string) (*PkgSpec, error) {
 				cur.EnsuresLocal = append(cur.EnsuresLocal, c)
 			case "nowrite":
 				cur.NoWrite = append(cur.NoWrite, strings.Fields(it.text)...)
+			case "onlyhere":
+				cur.OnlyHere = append(cur.OnlyHere, strings.Fields(it.text)...)
 			case "assume-pre":
 				re, err := regexp.Compile(strings.TrimSpace(it.text))
 				if err != nil {
